@@ -186,20 +186,29 @@ func (s *LinearState) Add(ctx *Context, id string, x Map) (string, error) {
 		return id, err
 	}
 
+	// The storage write and the in-memory update happen under one
+	// lock.  Otherwise a concurrent Add or Rem for the same id
+	// could interleave with them, and memory and storage would
+	// disagree from then on.
+	s.slock(ctx, false)
+	defer s.sunlock(ctx, false)
+
 	pair := &Pair{[]byte(id), bs}
 	if err = s.store.Add(ctx, s.Name, pair); err != nil {
 		return id, err
 	}
 
 	if s.addHook != nil {
-		if err := s.addHook(ctx, s, id, m, ctx.GetLoc().loading); err != nil {
+		// The hook may read this state (which we have locked).
+		s.withPrivilege(ctx)
+		err := s.addHook(ctx, s, id, m, ctx.GetLoc().loading)
+		s.withoutPrivilege(ctx)
+		if err != nil {
 			Log(ERROR, ctx, "LinearState.Add", "state", s.Name, "error", err, "when", "addHook", "id", id)
 			return "", err
 		}
 	}
 
-	// Maybe protect the store (above), too.
-	s.slock(ctx, false)
 	if _, isRule := m["rule"]; isRule {
 		if _, have := s.Facts[id]; have {
 			// Hope we're really replacing a rule.
@@ -207,7 +216,6 @@ func (s *LinearState) Add(ctx *Context, id string, x Map) (string, error) {
 		}
 	}
 	s.Facts[id] = RawFact{m, bs}
-	s.sunlock(ctx, false)
 
 	return id, nil
 }
@@ -217,8 +225,17 @@ func (s *LinearState) Rem(ctx *Context, id string) (bool, error) {
 	timer := NewTimer(ctx, "LinearState.Rem")
 	defer timer.Stop()
 
+	// As in Add, the storage write and the in-memory update happen
+	// under one lock.
+	s.slock(ctx, false)
+	defer s.sunlock(ctx, false)
+
 	if s.remHook != nil {
-		if err := s.remHook(ctx, s, id); err != nil {
+		// The hook may read this state (which we have locked).
+		s.withPrivilege(ctx)
+		err := s.remHook(ctx, s, id)
+		s.withoutPrivilege(ctx)
+		if err != nil {
 			Log(ERROR, ctx, "LinearState.Rem", "state", s.Name, "error", err,
 				"id", id, "when", "remHook")
 			// ToDo: Consider queuing, falling through, ...
@@ -226,7 +243,7 @@ func (s *LinearState) Rem(ctx *Context, id string) (bool, error) {
 		}
 	}
 
-	return s.rem(ctx, id, true)
+	return s.rem(ctx, id, false)
 }
 
 func (s *LinearState) rem(ctx *Context, id string, lock bool) (bool, error) {
